@@ -2,8 +2,9 @@
    Model: Tree/Clip.v (_clear_clipping_layers + _compute_clipping_layers, the two setters that
    recompute, a structural edit that does not, the compositor's use of the stored fields).
    Static part in full (all list lengths, all nestings, all three modes); the history part is limited
-   to what this model can say: the two triggers recompute from scratch, a structural edit does not
-   (finding F-C15-1); arbitrary edit histories belong to C09's model. *)
+   to what this model can say: the two setters and the modelled structural edit (move_down at the top level)
+   recompute from scratch; finding F-C15-1 (structural edits did not, repaired by /repo edc9f34) is kept as
+   [stale_after_move_refuted] about the old definition; arbitrary edit histories belong to C09's model. *)
 From PsdV Require Import Base.Prelude Tree.Forest Tree.Clip Tree.ClipProofs Tree.Corr.
 
 (* ---- the reversed single pass with a stack equals the forward specification *)
@@ -60,7 +61,7 @@ Theorem compositor_target_rule_level : forall m l, level_ok m l -> draw_level l 
 Proof. exact draw_level_ok. Qed.
 Print Assumptions compositor_target_rule_level.
 
-(* ---- kept current: the two triggers recompute from scratch, whatever the state was before *)
+(* ---- kept current.  The two setters recompute from scratch, whatever the state was before *)
 Theorem recomputed_after_flag_or_mode : forall d o, structural o = false -> current (apply_op d o).
 Proof. exact current_nonstructural. Qed.
 Print Assumptions recomputed_after_flag_or_mode.
@@ -69,10 +70,14 @@ Theorem current_on_open : forall m f, current (open_clip m f).
 Proof. exact current_open. Qed.
 Print Assumptions current_on_open.
 
-(* guard "no structural edit since the last recomputation" *)
-Theorem current_after_history : forall ops d,
-  current d -> forallb (fun o => negb (structural o)) ops = true -> current (fold_left apply_op ops d).
-Proof. exact current_history. Qed.
+(* since /repo commit edc9f34 every structural mutator recomputes too (modelled edit: move_down at the top
+   level): every operation of the model keeps the relation current, so every history does - no guard *)
+Theorem recomputed_after_move : forall i d, current d -> current (op_swap i d).
+Proof. exact current_swap. Qed.
+Print Assumptions recomputed_after_move.
+
+Theorem current_after_history : forall ops d, current d -> current (fold_left apply_op ops d).
+Proof. exact current_history_all. Qed.
 Print Assumptions current_after_history.
 
 Theorem current_means_spec : forall d l, current d -> sublevel (lay d) l -> level_ok (mode d) l.
@@ -80,28 +85,30 @@ Proof. exact current_levels. Qed.
 Print Assumptions current_means_spec.
 
 Example ex_history :
-  current (fold_left apply_op [OSetClip 5 true; OSetMode Csp; OSetClip 1 false] (open_clip Photoshop ex_tree)).
-Proof. apply current_history; [apply current_open|reflexivity]. Qed.
+  current (fold_left apply_op [OSetClip 5 true; OSwap 2; OSetMode Csp; OSwap 0; OSetClip 1 false] (open_clip Photoshop ex_tree)).
+Proof. apply current_history_all. apply current_open. Qed.
 
-(* ---- the full statement ("after any change to ... order, membership") is false of the code:
-   a structural edit leaves the stored fields as they were.  Witness: [A; B(clipping)], B.move_down(). *)
+(* ---- record of finding F-C15-1 (repaired by edc9f34): with the structural edit as it was before the fix
+   ([op_swap_stale]: order changes, nothing recomputed) the statement was false.
+   Witness: [A; B(clipping)], B.move_down(). *)
 Definition ex_two : doc := open_clip Photoshop [lf 0 false; lf 1 true].
 Theorem stale_after_move_refuted :
-  exists d i, current d /\ ~ current (op_swap i d).
+  exists d i, current d /\ ~ current (op_swap_stale i d).
 Proof.
   exists ex_two, O. split; [apply current_open|].
   unfold current. vm_compute. intro H. discriminate H.
 Qed.
 Print Assumptions stale_after_move_refuted.
 
-(* ... and the compositor then draws in the old order: A, then B on top of it, although B is below A *)
+(* ... and the compositor then drew in the old order: A, then B on top of it, although B is below A *)
 Theorem stale_draw_order_refuted :
-  exists d i, current d /\ draw_level (lay (op_swap i d)) <> map tid (lay (op_swap i d)).
+  exists d i, current d /\ draw_level (lay (op_swap_stale i d)) <> map tid (lay (op_swap_stale i d)).
 Proof.
   exists ex_two, O. split; [apply current_open|]. vm_compute. intro H. discriminate H.
 Qed.
 Print Assumptions stale_draw_order_refuted.
 
-(* any later trigger repairs it *)
-Example ex_repaired : current (op_set_mode Photoshop (op_swap 0 ex_two)).
-Proof. apply current_set_mode. Qed.
+(* the same witness on the current model: current, and drawn in stacking order *)
+Example ex_repaired :
+  current (op_swap 0 ex_two) /\ draw_level (lay (op_swap 0 ex_two)) = map tid (lay (op_swap 0 ex_two)).
+Proof. split; [apply current_swap, current_open|reflexivity]. Qed.
